@@ -124,6 +124,33 @@ def run(rep, tier, seed, replay):
             if mq.get(q, "").startswith("panic") and not ops.get({"exh": "exh"}.get(q, q), "").startswith("panic"):
                 rep.violation("correspondence", "totality: the model predicts a panic in %s that does not happen" % q, inp, impl=line[:200], model=ml[:200])
 
+    # ---- combinators over DIFFERENT members, built from text, from compiled values and nested, then queried: every pair of a
+    # pool of small patterns (no large bounds: no checked operation can overflow, so no panic is excused here)
+    if replay is None or "any" in replay["input"]:
+        pool = ["/", "", "a", "/a", "<a/:1,2>", "/usr/**", "/**/*", "a/b", "*", "**", "<a:0,2>", "{a,<b:0,1>}", "<a/:0,2>", "/a/b", "<*/:1,>", "$",
+                "[ab]", "<a:1,><b:2>", "<a/:2>", "/<a/:0,1>b", "(?i)a", "a/**/b", "<a:3,>", "{/a,/b/c}"]
+        groups = [[x, y] for x in pool for y in pool] + [["/", "/a", "/a/b"], ["/", "<a/:1,2>", "**"], ["", "/", "a"]]
+        if replay is not None:
+            groups = [replay["input"]["any"]]
+        reqs2 = []
+        for g0 in groups:
+            for cmd in ("A", "AC", "AN", "AO"):
+                reqs2.append((cmd, g0))
+        ans2 = h.ask(["%s %d %s" % (cmd, len(g0), " ".join(hexs(e) for e in g0)) for cmd, g0 in reqs2])
+        rep.evaluations += len(reqs2)
+        seen_bad = set()
+        for (cmd, g0), line in zip(reqs2, ans2):
+            rep.traces += 1
+            if "panic" in line or line.startswith("died"):
+                if tuple(g0) in seen_bad:
+                    continue
+                seen_bad.add(tuple(g0))
+                what = " ".join(x for x in line.split(" ") if "panic" in x)[:160] or line[:80]
+                rep.violation("oracle", "a query on the combinator any(%r) (built as %s) panics: %s" % (g0, {"A": "text", "AC": "compiled globs", "AN": "nested combinators", "AO": "owned globs"}[cmd], what),
+                              {"any": g0, "route": cmd}, impl=line[:300])
+            else:
+                rep.stats["combinator-queries-return"] += 1
+
     def ask(wit):
         if wit["expr"].startswith("@NESTED:"):
             if tier == "quick":
